@@ -235,7 +235,7 @@ fn stake_op(prop: &str) -> BoxedStrategy<Op> {
 
 fn blocks(op: BoxedStrategy<Op>, max_blocks: usize, max_ops: usize) -> BoxedStrategy<Vec<Block>> {
     // 255 stands for a very long pause (1 000 003 blocks)
-    let gap = prop_oneof![3 => Just(0u8), 36 => 1u8..=5, 1 => Just(255u8)];
+    let gap = prop_oneof![6 => Just(0u8), 72 => 1u8..=5, 2 => Just(255u8), 1 => Just(254u8)];
     let normal = (gap, proptest::collection::vec(op, 0..=max_ops)).prop_map(|(gap, ops)| Block { gap, ops });
     // now and then the admin registers a whole battery of hooks in one block ("any number of hooks")
     let burst = (11u8..14).prop_map(|n| Block { gap: 1, ops: (0..n).map(|i| Op::AddHook { by: Who::Admin, hook: 100 + i }).collect() });
@@ -339,7 +339,8 @@ impl World {
         addr_strs.push(addrs[0].to_string().to_uppercase());
         // the first two hook addresses are pool members themselves (a hook contract can also send calls,
         // e.g. try to unsubscribe itself); the others are separate addresses
-        let mut hook_strs: Vec<String> = (0..N_HOOK).map(|i| if i < 2 { addrs[i as usize].to_string() } else { d.api.addr_make(&format!("hook{i}")).to_string() }).collect();
+        // (the last one is the group contract's own address: registered like any other, it is notified like any other)
+        let mut hook_strs: Vec<String> = (0..N_HOOK).map(|i| if i < 2 { addrs[i as usize].to_string() } else if i == N_HOOK - 1 { d.contract.to_string() } else { d.api.addr_make(&format!("hook{i}")).to_string() }).collect();
         hook_strs.push("not-a-hook-address".to_string());
         // another spelling of hook 2's address: not a normalised address, so it can never be registered
         let upper = hook_strs[2].to_uppercase();
@@ -855,7 +856,7 @@ pub fn run_case(prop: &str, case: &Case, ctx: &mut CaseCtx) -> Result<(), Violat
                 check_c09_heights(&w, &hist, h_lo..=w.d.height + 2, &format!("end of block {} (before block #{bno})", w.d.height), ctx)?;
                 ctx.count("blocks_closed");
             }
-            let gap: u64 = if blk.gap == 255 { 1_000_003 } else { blk.gap as u64 };
+            let gap: u64 = match blk.gap { 255 => 1_000_003, 254 => 3_000_001, g => g as u64 };
             w.d.advance(gap, 5 * gap);
             changes_in_block.clear();
         }
@@ -1355,7 +1356,7 @@ fn d_blocks(u: &mut arbitrary::Unstructured, prop: &str, group: bool) -> Vec<Blo
         let gap = match d_arm(u, &[3, 36, 1]) {
             0 => 0,
             1 => 1 + arb_below(u, 5) as u8,
-            _ => 255,
+            _ => if arb_bool(u, 1, 3) { 254 } else { 255 },
         };
         if arb_bool(u, 1, 41) {
             let n = 11 + arb_below(u, 3) as u8;
